@@ -92,7 +92,8 @@ Apply(w, t, a, L, lk) ==
         \* raise FileNotFoundError part-way through the list
         \* named behaviour: linking onto a path occupied by a directory raises FileExistsError, which the transfer
         \* treats as "already there" and skips silently (copying reports it)
-        mute == IF lk \in {"symlink", "hardlink"} THEN {p \in L.files_create : IsDir(w3[p])} ELSE {}
+        \* (a hard link needs its source first: when the object is unavailable that is what gets reported)
+        mute == IF lk \in {"symlink", "hardlink"} THEN {p \in L.files_create : IsDir(w3[p]) /\ (lk = "symlink" \/ t[p].c \in a)} ELSE {}
         bad == {p \in L.files_chmod : ~There(w4[p]) \/ w4[p].c = "dangling"}
         w5 == [p \in Paths |-> IF p \in L.files_chmod /\ IsFile(w4[p]) /\ bad = {} THEN File(w4[p].c, TRUE) ELSE w4[p]]
         \* named behaviour: with update_meta (the default) the created files are stat-ed afterwards, so any entry that
